@@ -419,7 +419,7 @@ pub fn run(ctx: &Arc<Ctx>, mode: Mode) {
     let r = &ctx.report;
     r.set(&format!("{engine}_domain_size"), json!(n));
     r.set(&format!("{engine}_xor_fold_aliases_of_valid_encodings"), json!(FOLD_VALID.load(std::sync::atomic::Ordering::Relaxed)));
-    r.rule(format!("{engine}[{BUILD}]: {n} byte strings = valid encodings of reference points (deviation 0) + every alias s+kq / q-s / single bit flip / top-bit pattern / byte overwrite of each (deviation 1){} + complete interval [0,2^{}) + q +- 2^12 + 2^k, 2^k+-1 + every slice length 0..=80 x 6 fills; each string through every decoding entry point of this build; non-trivial = all (C01b: accepted strings only); distinct by bytes", if ctx.quick() { "" } else { " + all pairs of bit flips of 16 seeds (deviation 2)" }, if ctx.quick() { 16 } else { 20 }));
+    r.rule(format!("{engine}[{BUILD}]: {n} byte strings = valid encodings of reference points (deviation 0) + every alias s+kq / q-s / single bit flip / top-bit pattern / byte overwrite of each (deviation 1){} + complete interval [0,2^{}) + q +- 2^12 + 2^k, 2^k+-1 + limb-wise neighbours of q (cmp_family) + encodings solved for structured square-root digits and for boundary classes of the decoder's intermediates (target_family) + aliases s+kq (k<=3) whose 32-/64-bit word differences cancel under xor (carry-pattern graph) + a fixed pseudo-random family + every slice length 0..=80 x 6 fills; each string through every decoding entry point of this build; non-trivial = all (C01b: accepted strings only); distinct by bytes", if ctx.quick() { "" } else { " + all pairs of bit flips of 16 seeds (deviation 2)" }, if ctx.quick() { 16 } else { 20 }));
     r.assume("C02: Compress::No / Validate::No are unimplemented!() by design in the crate and are not exercised");
 }
 
